@@ -265,19 +265,25 @@ def _line_splits(thorough):
         d.update(kw)
         out.append(d)
     nm = {"?": "q", "z": "zz"}
+    # a handler that runs with a symbolic argument costs ~4 min and ~12 GB per query (the quick tier
+    # keeps one per handler family, the thorough tier all of them)
+    heavy_quick = "N"
     for c in cmds:
         n = nm.get(c, c)
-        add("bare_%s" % n, "7 c", c, VP_ID_LIVE=None)                 # no parameter at all
-        add("args_%s" % n, "7 c a :a", c, VP_ID_LIVE=None)            # one word and a trailing argument
-    add("id_only", "7", VP_ID_LIVE=None)
-    add("digits", "dd")
-    for c in "UXE":
+        add("bare_%s" % n, "7 c", c, VP_ID_LIVE=None, _mem=2)         # no parameter at all
+        if thorough or c in heavy_quick:
+            add("args_%s" % n, "7 c a :a", c, VP_ID_LIVE=None)        # one word and a trailing argument
+    add("id_only", "7", VP_ID_LIVE=None, _mem=2)
+    if thorough:
+        add("digits", "dd")
+    for c in ("UXE" if thorough else "U"):
         add("many_%s" % c, "7 c a a a a a a a a a a a a a a a a a", c, VP_ID_LIVE=None)   # 17 arguments: the 16-slot vector
-    for c in "Xx?N":
+    for c in ("Xx?N" if thorough else "?"):
         add("noid_%s" % nm.get(c, c), "-1 c a a a", c)
-    for c in "NDC":
+    for c in ("NDC" if thorough else ""):
         add("unknown_id_%s" % c, "3 c a a a a a", c, VP_ID_UNKNOWN=None)
-    for c2 in "NPn":
+    add("unknown_id_bare", "3 N", None, VP_ID_UNKNOWN=None, _mem=2)
+    for c2 in ("NPn" if thorough else "N"):
         add("pair_U_%s" % c2, "7 U a a a", None, VP_TMPL2='"7 c"', VP_CMD2="'%s'" % c2, VP_ID_LIVE=None)
     if thorough:
         for c in cmds:
@@ -288,7 +294,7 @@ def _line_splits(thorough):
         add("sym_cmd", "7 c a", None, VP_ID_LIVE=None)                # command letter symbolic: all handlers in one formula
         add("colon_first", ":7 N a", None)
         add("plus_id", "+7 N a", None)
-        add("long_arg", "7 N aaaaaaaaaaaaaaaaaaaaaaaaaaaaaaaaaaaaaaaaaaaaaaaaaaaaaaaaaaaaaaaaaaaaaa", None, VP_ID_LIVE=None)
+        add("long_arg", "7 N aaaaaaaaaaaaaaaaaaaaaaaaaaaaaaaaaaaaaaaaaaaaaaaaaaaaaaaaa", None, VP_ID_LIVE=None)
         for c2 in "uHT":
             add("pair_X_%s" % c2, "-1 X a a a a", None, VP_TMPL2='"7 c a"', VP_CMD2="'%s'" % c2)
     return out
@@ -297,9 +303,9 @@ def _line_splits(thorough):
 RECIPES["C08"] = {
     "units": ["modules/iauth_core.c", "modules/iauth_xquery.c", "modules/iauth_class.c", "src/set.c"],
     "jobs": [
-        {"name": "line", "src": ["C08_line.c"] + IAUTH_NOMISC, "defs": {"all": {"NREQ": 1, "NSVC": 1, "VP_LINE_ALLOC": 96}},
+        {"name": "line", "src": ["C08_line.c"] + IAUTH_NOMISC, "defs": {"all": {"NREQ": 1, "NSVC": 1, "VP_LINE_ALLOC": 64, "KSTR": 1}},
          "splits": {"quick": _line_splits(False), "thorough": _line_splits(True)},
-         "unwind": 800, "unwindset": LINE_UW, "fp_restrict": FP_IAUTH, "flags": ["--sat-solver", "cadical", "--max-field-sensitivity-array-size", "100"], "timeout": 900},
+         "unwind": 800, "unwindset": LINE_UW, "fp_restrict": FP_IAUTH, "flags": ["--sat-solver", "cadical"], "timeout": 1200, "mem_gb": 13},
         {"name": "eof", "src": ["C08_line.c"] + IAUTH_NOMISC, "defs": {"all": {"NREQ": 1, "NSVC": 1, "VP_LINE_ALLOC": 96, "L_EOF": None}},
          "splits": {"all": [{}]},
          "unwind": 800, "unwindset": LINE_UW, "fp_restrict": FP_IAUTH, "flags": ["--sat-solver", "cadical"], "timeout": 900},
